@@ -3,7 +3,9 @@ from bounded import gen
 from checks.e2e_common import run_e2e_property
 
 EXPLANATION = (
-    "P tier (unbounded): EntityPlacer._try_inline_comparison returns data only for `signal CMP int-constant -> 1` deciders with at most one consumer in the usage analysis, and the data are that comparison. K6/K8 for entity conditions. B tier (bounded): for each program of the scope (entity prototypes x enable "
+    "P tier (unbounded): EntityPlacer._try_inline_comparison returns data only for `signal CMP int-constant -> 1` deciders with at most one consumer in the usage analysis, and the data are that comparison; "
+    "_place_entity_prop_write records exactly the assigned value (bundle condition / that comparison / a reference / the integer) and makes the entity a reader of what it needs; "
+    "entity output reads are sourced by the entity. K6/K8 for entity conditions. B tier (bounded): for each program of the scope (entity prototypes x enable "
     "expressions, entities sharing sources, any()/all() inlining, chest outputs reused in several merges) the real "
     "pipeline's blueprint is decoded; the entity at the user-given tile must exist exactly once and its circuit "
     "condition, evaluated by the S2 model on the network actually wired to it, must be true exactly when the S3 value "
@@ -20,10 +22,15 @@ def _apply_writes_box(cr):
     cr.bounded_check(run_contract_enum, "apply-property-writes-box", c06.apply_writes, args,
                      f"{len(args)} cases: 3 entity kinds (flag + setter / setter only / bare) x {{signal, inlined comparison x 6 comparators x 3 constants, "
                      "bundle condition}}: the condition written means enable > 0 and circuit control is on (contract evaluated on the real method)")
+    from contracts import c07b
+    cargs = c07b.cleanup_entities_arg_sets()
+    cr.bounded_check(run_contract_enum, "cleanup-unused-entities-box", c07b.cleanup_entities, cargs,
+                     f"{len(cargs)} plans of two lamps, each driven by an inlined comparison / a signal / nothing: exactly the inlined deciders, their wires and graph "
+                     "edges disappear (contract evaluated on the real EntityPlacer.cleanup_unused_entities)")
 
 
 def run(tier):
     progs = gen.c06_scope(tier)
     return run_e2e_property("C06", tier, EXPLANATION, "DESIGN §4 C06",
                             [("e2e-entity-conditions", progs, "entity prototypes x enable expressions, shared sources, entity outputs")],
-                            contract_modules=["contracts.c06", "contracts.c01b"], extra=_apply_writes_box)
+                            contract_modules=["contracts.c06", "contracts.c01b", "contracts.c07b"], extra=_apply_writes_box)
